@@ -1,7 +1,7 @@
 import QtyModel.Ops
 import QtyModel.Generated.Algos
 /-
-  Tie between code and model for the ALGORITHMS (`HasRefUnit::{add, sub, div}`).
+  Tie between code and model for the ALGORITHMS (`Quantity::{add, sub}`, used by types without reference unit).
 
   `Generated/Algos.lean` is re-emitted from the Rust source on every run
   (tools/translate_algos.py).  Every theorem below states that the re-emitted definition IS the
@@ -15,10 +15,7 @@ set_option linter.unusedSectionVars false
 variable {A U V W : Type} [DecidableEq U] [DecidableEq V] [DecidableEq W]
 variable (R : Arith A) (T : QT A U)
 
-theorem add_eq (a b : Q A U) : HasRefUnit.add R T a b = hrAdd R T a b := rfl
-
-theorem sub_eq (a b : Q A U) : HasRefUnit.sub R T a b = hrSub R T a b := rfl
-
-theorem div_eq (a b : Q A U) : HasRefUnit.div R T a b = hrDiv R T a b := rfl
+theorem nr_add_eq (a b : Q A U) : Quantity.add R T a b = nrAdd R a b := rfl
+theorem nr_sub_eq (a b : Q A U) : Quantity.sub R T a b = nrSub R a b := rfl
 
 end Qty.AlgoTie
